@@ -22,6 +22,10 @@ and from the callers of conn_tls_start (src/auth.c, src/conn.c), the calls made 
   (1 xmpp_disconnect, 2 conn_disconnect, 3 _auth, 4 conn_open_stream, 5 conn_prepare_reset, 6 return, 9 other /
    the branch is itself conditional; logging calls are skipped)
 
+and from every src/*.c of the build: the functions that write conn->domain (assignment, strophe_free_and_null, address taken):
+  tls_domain_written_in : sorted codes, 1 = _conn_connect (copies the domain of the configured JID), 2 = _conn_reset, 9 = any other
+                          function (the name tls_new pins would no longer be the one the user configured)
+
 guard codes: 0 unconditional (main flow of tls_new), 1 = if (conn->tls_trust), 2 = if (!conn->tls_trust) or the
 else branch of 1, 9 = anything else (makes Gen_tls_ok fail).  callback codes: 0 NULL, 1 _tls_verify, 9 other.
 """
@@ -286,6 +290,65 @@ def failure_reaction(rel, func_re, cond_re, in_else):
     return stmt_codes(blk) if blk is not None else [9]
 
 
+EXCLUDED_SRC = {"tls_dummy.c", "tls_gnutls.c", "tls_schannel.c", "parser_libxml2.c", "compression_dummy.c", "snprintf.c"}
+DOMAIN_WRITE = re.compile(r"(?:\w+->domain\s*(?:\[[^\]]*\]\s*)?=(?!=))|(?:strophe_free_and_null\s*\([^;]*->domain\s*\))|(?:&\s*\w+->domain\b)")
+
+
+def enclosing_functions(text):
+    """(start, end, name) of every top-level braced block that follows `name(...)`."""
+    out = []
+    depth = 0
+    i = 0
+    start = None
+    name = None
+    n = len(text)
+    while i < n:
+        c = text[i]
+        if c == '"' or c == "'":
+            j = i + 1
+            while j < n and text[j] != c:
+                if text[j] == "\\":
+                    j += 1
+                j += 1
+            i = j
+        elif c == "{":
+            if depth == 0:
+                start = i
+                m = re.search(r"(\w+)\s*\((?:[^()]|\([^()]*\))*\)\s*$", text[max(0, i - 600):i])
+                name = m.group(1) if m else None
+            depth += 1
+        elif c == "}":
+            depth -= 1
+            if depth == 0 and start is not None:
+                out.append((start, i, name))
+                start = None
+        i += 1
+    return out
+
+
+def domain_writers():
+    import glob
+    import os
+    codes = set()
+    for f in sorted(glob.glob(os.path.join(T.REPO, "src", "*.c"))):
+        if os.path.basename(f) in EXCLUDED_SRC:
+            continue
+        text = T.strip_comments(open(f, errors="replace").read())
+        funcs = enclosing_functions(text)
+        for m in DOMAIN_WRITE.finditer(text):
+            # only the connection object's field (other structures have a `domain` member too)
+            frag = m.group(0)
+            if not re.search(r"\bconn->domain", frag):
+                continue
+            fn = None
+            for a, b, nm in funcs:
+                if a <= m.start() <= b:
+                    fn = nm
+            where = (os.path.basename(f), fn)
+            codes.add({("conn.c", "_conn_connect"): 1, ("conn.c", "_conn_reset"): 2}.get(where, 9))
+    return sorted(codes)
+
+
 def generate():
     text = preprocess()
     body = func_body(text, r"tls_t \*\s*tls_new\s*\(\s*xmpp_conn_t \*\s*conn\s*\)")
@@ -393,5 +456,7 @@ def generate():
     out += "Definition tls_verify_cert_accessor : Z := %d.\n\n" % acc
     out += "(* what the callers do when conn_tls_start failed *)\n"
     out += "Definition tls_proceed_failure_calls : list Z := [%s].\n" % "; ".join(str(c) for c in proceed)
-    out += "Definition tls_legacy_failure_calls : list Z := [%s].\n" % "; ".join(str(c) for c in legacy)
+    out += "Definition tls_legacy_failure_calls : list Z := [%s].\n\n" % "; ".join(str(c) for c in legacy)
+    out += "(* the functions that write conn->domain: 1 = _conn_connect, 2 = _conn_reset, 9 = any other *)\n"
+    out += "Definition tls_domain_written_in : list Z := [%s].\n" % "; ".join(str(c) for c in domain_writers())
     return out
